@@ -107,7 +107,7 @@ Fixpoint buf_offset (bufs : list buf) (size : nat) : nat * list buf :=
     else (0, b :: rest)
   end.
 
-(* ---- uv__fs_write_all (fs.c:1633-1676) against a state-passing system
+(* ---- uv__fs_write_all (fs.c:1633-1688) against a state-passing system
    [sys].  One unit of fuel per system call (EINTR repeats included). ---- *)
 Inductive wres := WDone (r : rres) | WFuel.
 
@@ -122,7 +122,8 @@ Fixpoint write_all_loop (fuel : nat) (iovmax : nat) (s : St) (bufs : list buf)
   | _ :: _ =>
     let nb := if iovmax <? length bufs then iovmax else length bufs in
     match pick_call bufs nb off with
-    | None => (WDone (ROk total), [], s)                    (* result = 0: break *)
+    | None => (WFuel, [], s)      (* only when iovmax = 0: uv__fs_write returns 0 without a
+                                     call and the empty window is skipped for ever *)
     | Some c =>
       match fuel with
       | O => (WFuel, [], s)
@@ -134,7 +135,13 @@ Fixpoint write_all_loop (fuel : nat) (iovmax : nat) (s : St) (bufs : list buf)
             let '(r, lg, s'') := write_all_loop fuel' iovmax s' bufs off total in
             (r, (c, a) :: lg, s'')
           else (WDone (if total =? 0 then RErr e else ROk total), [(c, a)], s')
-        | AOk O => (WDone (ROk total), [(c, a)], s')        (* result <= 0: break *)
+        | AOk O =>
+          (* result == 0: a window made only of empty buffers, with buffers
+             remaining beyond it, is skipped (fs.c:1654-1664); otherwise break *)
+          if (nb <? length bufs) && forallb (fun b => length b =? 0) (firstn nb bufs) then
+            let '(r, lg, s'') := write_all_loop fuel' iovmax s' (skipn nb bufs) off total in
+            (r, (c, a) :: lg, s'')
+          else (WDone (ROk total), [(c, a)], s')
         | AOk n =>
           let '(o, bufs') := buf_offset bufs n in
           let off' := if (0 <=? off)%Z then (off + Z.of_nat n)%Z else off in
@@ -440,7 +447,7 @@ Definition sqe_of (kv : Z) (op : fsop) : option sqe :=
       if kv_close_ok kv then Some (mkSqe IORING_OP_CLOSE fd 0 ANull ANull 0 0) else None
   | OFtruncate fd off =>
       if kv_ge kv 395520 (* 0x060900 *)
-      then Some (mkSqe IORING_OP_FTRUNCATE fd 0 ANull ANull (off mod two32) 0) else None
+      then Some (mkSqe IORING_OP_FTRUNCATE fd off ANull ANull 0 0) else None
   | OFsync fd => Some (mkSqe IORING_OP_FSYNC fd 0 ANull ANull 0 0)
   | OFdatasync fd => Some (mkSqe IORING_OP_FSYNC fd 0 ANull ANull 0 IORING_FSYNC_DATASYNC)
   | OLink p np =>
